@@ -16,6 +16,7 @@ func init() {
 	vfRegister("VfC15_reconcile_q", VfC15_reconcile_q)
 	vfRegister("VfC15_reconcile_t", VfC15_reconcile_t)
 	vfRegister("VfC15_reconcile_qx", VfC15_reconcile_qx)
+	vfRegister("VfC15_reconcile_qw", VfC15_reconcile_qw)
 }
 
 func vfC15(nNH, nNHG, nTop, members int, kinds []int) {
@@ -78,12 +79,36 @@ func vfC15Run(I, T *rib.VfWorld, extra bool) {
 	// now the RIBs are equal: reconciling again yields nothing
 	ops2, err := rec.Reconcile(context.Background(), &id)
 	vfAssert(err == nil && ops2.IsEmpty(), "C15:equal-ribs-yield-no-operations")
+	// a further round: the converged target is reconciled towards an EMPTY intended RIB - every entry must be
+	// deletable in the documented order (bookkeeping left wrong by the first round shows up here)
+	if !extra {
+		E := rib.VfEmpty()
+		rec3 := New(NewLocalRIB(E.R), NewLocalRIB(T.R))
+		ops3, err := rec3.Reconcile(context.Background(), &id)
+		vfAssert(err == nil, "C15:reconcile-succeeds")
+		if err == nil {
+			var seq3 []*spb.AFTOperation
+			seq3 = append(seq3, ops3.Delete.TopLevel...)
+			seq3 = append(seq3, ops3.Delete.NHG...)
+			seq3 = append(seq3, ops3.Delete.NH...)
+			vfAssert(len(ops3.Add.NH)+len(ops3.Add.NHG)+len(ops3.Add.TopLevel)+len(ops3.Replace.NH)+len(ops3.Replace.NHG)+len(ops3.Replace.TopLevel) == 0, "C15:tear-down-only-deletes")
+			for _, o := range seq3 {
+				vfAssert(T.Apply(o), "C15:every-operation-succeeds-in-the-documented-order")
+			}
+			E.TablesEqual(T.R, "C15:target-")
+		}
+	}
 	vfReach("end")
 }
 
 // reconcile_qx: cross-instance references - a next-hop and a group in each instance on both sides, one IPv4
 // entry per side in either instance whose group instance is unset (= its own instance) or explicit.
 func VfC15_reconcile_qx() { vfC15Run(rib.VfBuildSplit("I."), rib.VfBuildSplit("T."), false) }
+
+// reconcile_qw: weighted groups - one next-hop and one group on each side whose member carries an optional weight
+// of any value: a group that keeps its member but changes the weight is replaced, and everything can be torn down
+// afterwards.
+func VfC15_reconcile_qw() { vfC15Run(rib.VfBuildWeighted("I."), rib.VfBuildWeighted("T."), false) }
 
 func VfC15_reconcile_q() { vfC15(1, 1, 1, 1, rib.VfKinds(true, false, true)) }
 func VfC15_reconcile_t() { vfC15(2, 1, 1, 1, rib.VfKinds(true, false, false)) }
